@@ -534,6 +534,8 @@ def check(model, rep, tier):
     catch_clause(model, rep, funcs)
     selection_clause(model, rep, funcs)
     diagonal_clause(model, rep, funcs)
+    from .C03 import batch_task_order_obligation
+    batch_task_order_obligation(model, rep, "i-th subtomogram / i-th molecule")
     from .generic import rebuild_ctor_obligations, functions_in
     rebuild_ctor_obligations(model, rep, functions_in(model, ["acryo/loader/_batch.py", "acryo/loader/_loader.py", "acryo/loader/_base.py", "acryo/loader/_group.py",
                                                               "acryo/loader/_mock.py"]), "4 pairing")
